@@ -216,6 +216,14 @@ def run_one(t):
             w.link.hook = h0
             req = w.put_request_obj(None)
             req.dest_file = Path("dst/prev.bin")
+            if t.choose(2, "earlier episode with fault handler overrides") == 1:
+                # Metadata options of THAT transaction: the receiver's own table must not change because of them
+                from spacepackets.cfdp import ConditionCode as _CC
+                from spacepackets.cfdp.defs import FaultHandlerCode as _FH
+                from spacepackets.cfdp.tlv import FaultHandlerOverrideTlv
+
+                req.fault_handler_overrides = [FaultHandlerOverrideTlv(_CC.FILE_CHECKSUM_FAILURE, _FH.NOTICE_OF_CANCELLATION),
+                                               FaultHandlerOverrideTlv(_CC.CHECK_LIMIT_REACHED, _FH.IGNORE_ERROR)]
             w.call(w.a, "src", "put", arg=req)
             w.start_polls()
             w.run()
